@@ -11,8 +11,8 @@
 (*   layer's shutdown glue (peer/brontide.go).                             *)
 (*                                                                         *)
 (* Abstraction.  Each side keeps the sequence `own` of the updates it has  *)
-(* made (add / settle / fail); a commitment is the pair of prefix lengths  *)
-(* it covers, cov = [A |-> nA, B |-> nB].  Per side p (o = the other):     *)
+(* made (add / settle / fail / fee); a commitment is the pair of prefix    *)
+(* lengths it covers, cov = [A |-> nA, B |-> nB].  Per side p (o = other): *)
 (*   own            p's updates; the prefix up to Tip(p)[p] is signed      *)
 (*   rcv            number of o's updates received                         *)
 (*   lc  / hl       p's local commitment (we revoke at once: one) / height *)
@@ -26,6 +26,10 @@
 (*                  OnCommitOnce(Outgoing, send shutdown), OnFlushedOnce   *)
 (*   replay         adds in the switch's mailbox that were not signed when *)
 (*                  the link went down: re-delivered when the link resumes *)
+(* and globally: pays (every payment offered: sender, kind, whether the    *)
+(* switch took it, the state of its hold invoice in the receiver's invoice *)
+(* registry: open / accepted / settled / canceled - the registry survives a*)
+(* reconnect), nflap, nfee (bounds).                                       *)
 (* What survives a restart is what lnd persists: the signed prefix of own, *)
 (* rcv := lc[o] (updates covered by the last commit_sig we accepted), the  *)
 (* commitments, heights, lwr, shut.  q[p] is the FIFO of messages p has    *)
@@ -35,16 +39,31 @@
 (*                                                                         *)
 (* Actions = the link's critical sections:                                 *)
 (*   Add(p,kind)   Switch.SendHTLC -> mailbox -> handleDownstreamUpdateAdd *)
+(*                 (kind 1: the exit hop settles, 0: fails, 2: hold invoice*)
+(*                 - the exit hop keeps the htlc until the registry decides*)
+(*                 ); refused by the switch while the link is not eligible *)
+(*                 (not reestablished / outgoing adds disabled)            *)
 (*   Tick(p)       BatchTicker -> updateCommitTx (sign if window open)     *)
-(*   Deliver(p)    handleUpstreamMsg: add/settle/fail, commit_sig (accept, *)
-(*                 revoke, sign if owed), revoke_and_ack (lock in: the exit*)
-(*                 hop settles/fails every newly locked-in add, signs),    *)
+(*   Deliver(p)    handleUpstreamMsg: add/settle/fail/update_fee, commit_sig*)
+(*                 (accept, revoke, sign if owed), revoke_and_ack (lock in:*)
+(*                 the exit hop settles/fails every newly locked-in add -  *)
+(*                 or has its hold invoice accepted -, signs),             *)
 (*                 channel_reestablish (the whole of resumeLink: resend    *)
 (*                 channel_ready at height 1, retransmit revoke / updates +*)
 (*                 commit_sig in LastWasRevoke order, sign if a revoke was *)
 (*                 sent without the signature owed, PreviouslySentShutdown,*)
 (*                 resolveFwdPkgs (re-resolve locked-in adds whose answer  *)
-(*                 was not signed), mailbox replay), shutdown (peer glue)  *)
+(*                 was not signed, re-subscribe held htlcs, learn decisions*)
+(*                 made while the link was down), mailbox replay),         *)
+(*                 shutdown (peer glue)                                    *)
+(*   Decide(i,d)   the receiver's registry settles / cancels an accepted   *)
+(*                 hold invoice: hodlQueue -> processHodlQueue (answer +   *)
+(*                 updateCommitTx) if the link is in its main loop         *)
+(*   Fee(x)        updateFeeTimer -> handleUpdateFee -> updateChannelFee on*)
+(*                 the initiator (A): update_fee + updateCommitTx at once; *)
+(*                 lnwallet's appendFeeUpdate replaces the rate of a fee   *)
+(*                 update that is on no commitment yet instead of logging a*)
+(*                 second one (sender and receiver alike)                  *)
 (*   Shutdown(p)   the peer layer starts a cooperative close               *)
 (*   Flap          the connection drops; both links are re-created from the*)
 (*                 database and send channel_reestablish                   *)
@@ -58,7 +77,9 @@
 (*                    peer had not seen it and retransmits add+commit_sig" *)
 (*   QuiescentSynced  once the queues have drained (nothing in flight,     *)
 (*                    nothing to sign) both sides hold mirrored commitments*)
-(*                    that cover every update, nobody owes anything        *)
+(*                    that cover every update, nobody owes anything, and   *)
+(*                    the only htlcs left are those of accepted, undecided *)
+(*                    hold invoices                                        *)
 (*   ExactlyOnce      an HTLC that was irrevocably committed is present on *)
 (*                    both commitments or resolved, exactly once           *)
 (*   CovSane          commitments only ever cover signed / received updates*)
@@ -66,15 +87,16 @@
 (* of the resynchronisation).  BlockInOnResume is a named defect switch (a *)
 (* link that also blocks INCOMING adds when it resumes with a previously   *)
 (* sent shutdown): with it NoFailure must fail - the witness that the rule *)
-(* is not vacuous.  OweSigQuirk: resolveFwdPkgs does not sign what it owes *)
-(* (finding F17, repaired in /repo): QuiescentSynced must fail.            *)
+(* is not vacuous (checked in every run).  Not modelled: a link that dies  *)
+(* INSIDE one critical section (C02 / C08 cover crash points), forwarded   *)
+(* htlcs (C07 / C08), channel types other than the fixture's (tweakless).  *)
 (***************************************************************************)
 EXTENDS Integers, Sequences, FiniteSets, SequencesExt, TLC
 
-CONSTANTS MaxAdds, MaxFlaps, MaxShut, BlockInOnResume, OweSigQuirk
-VARIABLES sd, q, pays, nflap, res
+CONSTANTS MaxAdds, MaxFlaps, MaxShut, MaxFees, FeeRates, BaseFee, Kinds, BlockInOnResume
+VARIABLES sd, q, pays, nflap, nfee, res
 
-vars == <<sd, q, pays, nflap, res>>
+vars == <<sd, q, pays, nflap, nfee, res>>
 
 P == {"A", "B"}
 O(p) == IF p = "A" THEN "B" ELSE "A"
@@ -83,16 +105,20 @@ ZeroCov == [A |-> 0, B |-> 0]
 
 M(k, h, x, y) == [k |-> k, h |-> h, x |-> x, y |-> y, c |-> ZeroCov]
 SigMsg(c, n) == [k |-> "sig", h |-> 0, x |-> n, y |-> 0, c |-> c]
-UpdMsg(u) == M(u.k, u.h, 0, 0)
+UpdMsg(u) == IF u.k = "fee" THEN M("fee", 0, u.h, 0) ELSE M(u.k, u.h, 0, 0)
+IsRes(k) == k \in {"settle", "fail"}
 Msgs(us) == [i \in 1..Len(us) |-> UpdMsg(us[i])]
 
 \* ---- commitments as coverage pairs ----------------------------------------
 AddsOf(own, n, who) == {<<who, own[i].h>> : i \in {j \in 1..n : own[j].k = "add"}}
-ResOf(own, n, who)  == {<<who, own[i].h>> : i \in {j \in 1..n : own[j].k # "add"}}
+ResOf(own, n, who)  == {<<who, own[i].h>> : i \in {j \in 1..n : IsRes(own[j].k)}}
 \* the HTLCs on a commitment that covers c (w: both sides' records)
 Htlcs(w, c) == (AddsOf(w.A.own, c.A, 0) \cup AddsOf(w.B.own, c.B, 1))
                \ (ResOf(w.A.own, c.A, 1) \cup ResOf(w.B.own, c.B, 0))
 NumAdds(own) == Cardinality({j \in 1..Len(own) : own[j].k = "add"})
+\* the fee rate of a commitment that covers c: the last update_fee of the initiator (A) it covers
+FeeAt(w, c) == LET idx == {j \in 1..c.A : w.A.own[j].k = "fee"}
+               IN IF idx = {} THEN BaseFee ELSE w.A.own[CHOOSE j \in idx : \A i \in idx : i <= j].h
 
 Tip(s) == IF s.hasRp THEN s.rp ELSE s.rt
 Owe(s, p)  == Len(s.own) # Tip(s)[p] \/ s.lc[O(p)] # Tip(s)[O(p)]     \* lnwallet OweCommitment
@@ -119,13 +145,20 @@ FlushW(w, p) == IF w[p].hookFlush /\ Clean(w, p)
                 THEN [w EXCEPT ![p].hookFlush = FALSE, ![p].ev = Append(@, "flushed")] ELSE w
 
 \* the exit hop's answers to o's adds at positions from..to of o's updates that p has not answered yet
+\* (an add for a hold invoice, s = 2, is answered only once the invoice has been settled / cancelled: NotifyExitHopHtlc
+\* returns no resolution while the invoice is open / accepted, the link keeps the htlc in its hodlMap)
+Held(u) == u.s = 2 /\ pays[u.pid].inv \in {"open", "accepted"}
+Answer(u) == IF u.s = 1 \/ (u.s = 2 /\ pays[u.pid].inv = "settled") THEN "settle" ELSE "fail"
 ResFor(w, p, from, to) ==
   LET o == O(p)
-      idx == {i \in from..to : /\ w[o].own[i].k = "add"
-                               /\ ~\E j \in 1..Len(w[p].own) : w[p].own[j].k # "add" /\ w[p].own[j].h = w[o].own[i].h}
+      idx == {i \in from..to : /\ w[o].own[i].k = "add" /\ ~Held(w[o].own[i])
+                               /\ ~\E j \in 1..Len(w[p].own) : IsRes(w[p].own[j].k) /\ w[p].own[j].h = w[o].own[i].h}
       ord == SetToSortSeq(idx, <)
-  IN [n \in 1..Len(ord) |-> [k |-> IF w[o].own[ord[n]].s = 1 THEN "settle" ELSE "fail",
+  IN [n \in 1..Len(ord) |-> [k |-> Answer(w[o].own[ord[n]]),
                              h |-> w[o].own[ord[n]].h, s |-> 0, pid |-> 0]]
+\* the payments whose hold invoice p's registry accepts when p's exit hop processes the locked-in adds
+LockedOpen(w, p) == {w[O(p)].own[i].pid : i \in {j \in 1..w[p].rt[O(p)] :
+                        w[O(p)].own[j].k = "add" /\ w[O(p)].own[j].s = 2 /\ pays[w[O(p)].own[j].pid].inv = "open"}}
 
 \* ---- handleUpstreamMsg ------------------------------------------------------
 RecvUpdW(w, p, m) ==
@@ -133,9 +166,16 @@ RecvUpdW(w, p, m) ==
       o == O(p)
       known == s.rcv + 1 <= Len(w[o].own)
       u == w[o].own[s.rcv + 1]
+      \* lnwallet appendFeeUpdate: an update_fee that arrives while the newest fee update of the log is on no
+      \* commitment yet only replaces its rate (no new log entry).  The rate of a message is not compared with
+      \* the sender's log: the sender may have replaced it since; delivery is in order, so that the copies agree
+      \* whenever a signature covers the entry (ConformFee checks the rates of the real commitments)
+      coal == m.k = "fee" /\ \E i \in (s.lc[o] + 1)..s.rcv : w[o].own[i].k = "fee"
   IN IF m.k = "add" /\ s.inBlk THEN Fail(w, p, "add while flushing")
-     ELSE IF ~known \/ u.k # m.k \/ u.h # m.h THEN Fail(w, p, "unexpected update")
-     ELSE IF m.k # "add" /\ <<Num(p), m.h>> \notin (Htlcs(w, s.lc) \cap Htlcs(w, s.rt))
+     ELSE IF m.k = "fee" /\ p = "A" THEN Fail(w, p, "received fee update as initiator")
+     ELSE IF coal THEN w
+     ELSE IF ~known \/ (m.k = "fee" /\ u.k # "fee") \/ (m.k # "fee" /\ UpdMsg(u) # m) THEN Fail(w, p, "unexpected update")
+     ELSE IF IsRes(m.k) /\ <<Num(p), m.h>> \notin (Htlcs(w, s.lc) \cap Htlcs(w, s.rt))
           THEN Fail(w, p, "resolution of an htlc that is not locked in")
      ELSE [w EXCEPT ![p].rcv = @ + 1]
 
@@ -199,7 +239,7 @@ RecvReestW(w, p, m) ==
                           ![p].outBlk = s.shut, ![p].inBlk = (BlockInOnResume /\ s.shut), ![p].reest = TRUE]
          rs == ResFor(w2, p, 1, w2[p].rt[o])
          w3 == [w2 EXCEPT ![p].own = @ \o rs, ![p].emit = @ \o Msgs(rs)]
-         w4 == IF OweSigQuirk /\ rs = <<>> THEN w3 ELSE TrySignW(w3, p, TRUE)
+         w4 == TrySignW(w3, p, TRUE)
      IN ReplayW(w4, p)
 
 \* ---- initial state / reconnect ---------------------------------------------
@@ -217,16 +257,22 @@ Restart(s, p) ==
                !.replay = @ \o [i \in 1..Len(la) |-> [s |-> la[i].s, pid |-> la[i].pid]],
                !.emit = <<M("reest", 0, s.hl + 1, s.hrt)>>, !.ev = <<>>]
 
-Init == /\ sd = [p \in P |-> Restart(Side0, p)]
-        /\ q = [p \in P |-> <<M("reest", 0, 1, 0)>>]
+\* (state values are written as explicit records [A |-> .., B |-> ..] and sequences as `<<>> \o ..`: TLC must not keep
+\* lazily evaluated functions in a state when a VIEW is used)
+Sd0 == [A |-> Restart(Side0, "A"), B |-> Restart(Side0, "B")]
+Q0 == [A |-> <<M("reest", 0, 1, 0)>>, B |-> <<M("reest", 0, 1, 0)>>]
+Init == /\ sd = Sd0
+        /\ q = Q0
         /\ pays = <<>>
         /\ nflap = 0
+        /\ nfee = 0
         /\ res = "ok"
 
-Clr(w) == [x \in P |-> [w[x] EXCEPT !.emit = <<>>, !.ev = <<>>]]
+Clr(w) == [A |-> [w.A EXCEPT !.emit = <<>>, !.ev = <<>>], B |-> [w.B EXCEPT !.emit = <<>>, !.ev = <<>>]]
 Alive == \A p \in P : sd[p].failed = ""
 \* q after a step in which `from` (or nobody: "") lost the head of its queue to a delivery
-Queue(w, from) == [x \in P |-> (IF x = from THEN Tail(q[x]) ELSE q[x]) \o w[x].emit]
+QueueOf(w, from, x) == (IF x = from THEN Tail(q[x]) ELSE q[x]) \o w[x].emit
+Queue(w, from) == [A |-> QueueOf(w, from, "A"), B |-> QueueOf(w, from, "B")]
 
 \* ---- actions ----------------------------------------------------------------
 Add(p, kind) ==
@@ -239,9 +285,10 @@ Add(p, kind) ==
          w1 == IF ok THEN [w EXCEPT ![p].own = Append(@, u), ![p].emit = <<UpdMsg(u)>>] ELSE w
      IN /\ sd' = w1
         /\ q' = Queue(w1, "")
-        /\ pays' = Append(pays, [p |-> p, kind |-> kind, st |-> IF ok THEN "sent" ELSE "refused"])
+        /\ pays' = Append(pays, [p |-> p, kind |-> kind, st |-> IF ok THEN "sent" ELSE "refused",
+                                  inv |-> IF kind = 2 THEN "open" ELSE "none"])
         /\ res' = IF ok THEN "ok" ELSE "refused"
-  /\ UNCHANGED nflap
+  /\ UNCHANGED <<nflap, nfee>>
 
 Tick(p) ==
   /\ Alive
@@ -250,7 +297,7 @@ Tick(p) ==
      IN /\ sd' = w1
         /\ q' = Queue(w1, "")
         /\ res' = IF Active(w, p) THEN "ok" ELSE "inactive"
-  /\ UNCHANGED <<pays, nflap>>
+  /\ UNCHANGED <<pays, nflap, nfee>>
 
 Shutdown(p) ==
   /\ Alive
@@ -259,6 +306,48 @@ Shutdown(p) ==
      IN /\ sd' = w1
         /\ q' = Queue(w1, "")
         /\ res' = IF w[p].reest THEN "ok" ELSE "notready"
+  /\ UNCHANGED <<pays, nflap, nfee>>
+
+\* the invoice registry of the receiver settles / cancels an accepted hold invoice (SettleHodlInvoice / CancelInvoice).
+\* A link in its main loop has the htlc in its hodlMap: hodlQueue -> processHodlQueue -> settle / fail, updateCommitTx at
+\* once.  A link that is waiting for channel_reestablish is not subscribed: it learns the decision when it resumes
+\* (resolveFwdPkgs re-notifies the registry, ResFor).
+Decide(i, d) ==
+  /\ Alive
+  /\ LET o == pays[i].p
+         p == O(o)
+         w == Clr(sd)
+         s == w[p]
+         js == {j \in 1..s.rt[o] : w[o].own[j].k = "add" /\ w[o].own[j].pid = i}
+         h == w[o].own[CHOOSE j \in js : TRUE].h
+         act == s.reest /\ js # {} /\ ~\E j \in 1..Len(s.own) : IsRes(s.own[j].k) /\ s.own[j].h = h
+         r == [k |-> IF d = "settled" THEN "settle" ELSE "fail", h |-> h, s |-> 0, pid |-> 0]
+         w1 == IF act THEN TrySignW([w EXCEPT ![p].own = Append(@, r), ![p].emit = <<UpdMsg(r)>>], p, TRUE) ELSE w
+     IN /\ sd' = w1
+        /\ q' = Queue(w1, "")
+        /\ pays' = [pays EXCEPT ![i].inv = d]
+        /\ res' = "ok"
+  /\ UNCHANGED <<nflap, nfee>>
+
+\* updateFeeTimer -> handleUpdateFee -> updateChannelFee on the initiator's link (A): the sampled rate differs (by more
+\* than 10%: FeeRates is chosen that way) from the rate of our local commitment -> UpdateFee, send update_fee,
+\* updateCommitTx at once (sign if the window is open; the outgoing commit hooks run).  Allowed after shutdown.
+Fee(x) ==
+  /\ Alive
+  /\ LET w == Clr(sd)
+         s == w.A
+         ok == s.reest /\ x # FeeAt(w, s.lc)
+         u == [k |-> "fee", h |-> x, s |-> 0, pid |-> 0]
+         \* lnwallet appendFeeUpdate: the newest fee update is on no commitment yet (we have not signed it): only its
+         \* rate is replaced; the message is sent all the same
+         pend == {j \in (Tip(s).A + 1)..Len(s.own) : s.own[j].k = "fee"}
+         own1 == IF pend = {} THEN Append(s.own, u)
+                 ELSE [s.own EXCEPT ![CHOOSE j \in pend : \A i \in pend : i <= j].h = x]
+         w1 == IF ok THEN TrySignW([w EXCEPT !.A.own = own1, !.A.emit = <<UpdMsg(u)>>], "A", TRUE) ELSE w
+     IN /\ sd' = w1
+        /\ q' = Queue(w1, "")
+        /\ res' = IF s.reest THEN "ok" ELSE "notready"
+  /\ nfee' = nfee + 1
   /\ UNCHANGED <<pays, nflap>>
 
 \* the mailbox fails the re-delivered adds of a link whose outgoing adds are disabled
@@ -277,28 +366,33 @@ Deliver(p) ==
                          [] m.k = "rev" -> IF w[p].reest THEN RecvRevW(w, p) ELSE Fail(w, p, "not reestablished")
                          [] OTHER -> IF w[p].reest THEN RecvUpdW(w, p, m) ELSE Fail(w, p, "not reestablished")
                  mf == IF m.k = "reest" /\ w1[p].failed = "" THEN MailboxFailed(w, w1, p) ELSE {}
+                 acc == IF m.k \in {"reest", "rev"} /\ w1[p].failed = "" THEN LockedOpen(w1, p) ELSE {}
              IN /\ sd' = w1
                 /\ q' = Queue(w1, o)
-                /\ pays' = [i \in 1..Len(pays) |-> IF i \in mf THEN [pays[i] EXCEPT !.st = "mbfailed"] ELSE pays[i]]
+                /\ pays' = <<>> \o [i \in 1..Len(pays) |-> IF i \in mf THEN [pays[i] EXCEPT !.st = "mbfailed"]
+                                                          ELSE IF i \in acc THEN [pays[i] EXCEPT !.inv = "accepted"]
+                                                          ELSE pays[i]]
                 /\ res' = "ok"
-  /\ UNCHANGED nflap
+  /\ UNCHANGED <<nflap, nfee>>
 
 Flap ==
   /\ Alive
-  /\ LET w == [p \in P |-> Restart(sd[p], p)]
+  /\ LET w == [A |-> Restart(sd.A, "A"), B |-> Restart(sd.B, "B")]
      IN /\ sd' = w
-        /\ q' = [p \in P |-> w[p].emit]
+        /\ q' = [A |-> w.A.emit, B |-> w.B.emit]
   /\ nflap' = nflap + 1
   /\ res' = "ok"
-  /\ UNCHANGED pays
+  /\ UNCHANGED <<pays, nfee>>
 
 NShut == Cardinality({p \in P : sd[p].shut})
 
 Next ==
-  \/ \E p \in P, kind \in {0, 1} : Len(pays) < MaxAdds /\ sd[p].reest /\ ~sd[p].outBlk /\ Add(p, kind)
+  \/ \E p \in P, kind \in Kinds : Len(pays) < MaxAdds /\ Add(p, kind)
+  \/ \E i \in 1..Len(pays), d \in {"settled", "canceled"} : pays[i].inv = "accepted" /\ Decide(i, d)
   \/ \E p \in P : Active(sd, p) /\ Tick(p)
   \/ \E p \in P : q[O(p)] # <<>> /\ Deliver(p)
   \/ \E p \in P : NShut < MaxShut /\ sd[p].reest /\ ~sd[p].shut /\ Shutdown(p)
+  \/ \E x \in FeeRates : nfee < MaxFees /\ sd.A.reest /\ Fee(x)
   \/ nflap < MaxFlaps /\ Flap
 
 Spec == Init /\ [][Next]_vars
@@ -309,11 +403,16 @@ NoFailure == \A p \in P : sd[p].failed = ""
 Quiescent == /\ \A p \in P : q[p] = <<>> /\ sd[p].reest /\ ~Active(sd, p) /\ sd[p].replay = <<>>
              /\ Alive
 Full == [A |-> Len(sd.A.own), B |-> Len(sd.B.own)]
+\* the htlcs whose hold invoice is accepted and undecided: they stay on the commitments
+HeldSet == {<<Num(pays[i].p), sd[pays[i].p].own[j].h>> :
+              <<i, j>> \in {x \in (1..Len(pays)) \X (1..(Len(sd.A.own) + Len(sd.B.own))) :
+                              /\ pays[x[1]].inv = "accepted" /\ x[2] <= Len(sd[pays[x[1]].p].own)
+                              /\ sd[pays[x[1]].p].own[x[2]].k = "add" /\ sd[pays[x[1]].p].own[x[2]].pid = x[1]}}
 QuiescentSynced ==
   Quiescent => \A p \in P : /\ ~sd[p].hasRp /\ sd[p].lc = Full /\ sd[p].rt = Full
                             /\ sd[p].rcv = Len(sd[O(p)].own)
                             /\ sd[p].hl = sd[O(p)].hrt
-                            /\ Htlcs(sd, Full) = {}
+                            /\ Htlcs(sd, Full) = HeldSet
 
 \* an HTLC covered by both local commitments was irrevocably committed
 ExactlyOnce ==
@@ -322,9 +421,9 @@ ExactlyOnce ==
         k == IF sd[p].lc[p] < sd[o].lc[p] THEN sd[p].lc[p] ELSE sd[o].lc[p]
     IN \A i \in 1..k : sd[p].own[i].k = "add" =>
          LET h == sd[p].own[i].h
-             n == Cardinality({j \in 1..Len(sd[o].own) : sd[o].own[j].k # "add" /\ sd[o].own[j].h = h})
+             n == Cardinality({j \in 1..Len(sd[o].own) : IsRes(sd[o].own[j].k) /\ sd[o].own[j].h = h})
              \* ... counted among the answers that are signed (an unsigned answer is lost and made again)
-             ns == Cardinality({j \in 1..Tip(sd[o])[o] : sd[o].own[j].k # "add" /\ sd[o].own[j].h = h})
+             ns == Cardinality({j \in 1..Tip(sd[o])[o] : IsRes(sd[o].own[j].k) /\ sd[o].own[j].h = h})
          IN /\ n <= 1
             /\ ns = 0 => (<<Num(p), h>> \in Htlcs(sd, sd[p].lc) /\ <<Num(p), h>> \in Htlcs(sd, sd[o].lc))
 
@@ -341,5 +440,5 @@ CovSane ==
        /\ (sd[o].hl = s.hrt + 1 => s.hasRp)
 
 \* MC view: what the last step emitted is not part of the state
-View == <<[p \in P |-> [sd[p] EXCEPT !.emit = <<>>, !.ev = <<>>]], q, pays, nflap>>
+View == <<Clr(sd), q, pays, nflap, nfee>>
 =============================================================================
